@@ -291,8 +291,14 @@ static Op gen_pair(int w) {
     if (chance(50)) std::swap(a, b);
     return mkop(w == 64 ? K_PAIR64 : K_PAIR32, {a, b});
 }
+// frequencies of real tick sources (RTC crystal, audio, TSC/ACPI/HPET style counters, video clocks): ratios between them
+// and the four units are mostly inexact in binary floating point and their products sit high in 64 bits
+static const uint64_t COUNTER_FREQS[] = {32768,    44100,    48000,    60,       1024,     1193182,  3579545,  14318180, 19200000,
+                                         24000000, 25000000, 26000000, 27000000, 33333333, 38400000, 3000000,  100000000, 90000,
+                                         999999937, 10000019};
 static uint64_t gen_freq() {
-    switch (weighted({45, 10, 20, 15, 10})) {
+    switch (weighted({40, 10, 20, 15, 10, 12})) {
+    case 5: return COUNTER_FREQS[pick(0, sizeof COUNTER_FREQS / sizeof COUNTER_FREQS[0] - 1)];
     case 0: return UNITS[pick(0, 3)];
     case 1: return pick(1, 64);
     case 2: return pick(1, FREQ_MAX);
